@@ -20,6 +20,13 @@ Compilation scheme (syntax-directed; nothing is "understood", nothing is optimis
   evaluation and the short-circuit of `and` / `or`;
 * names that resolve, in the module's global namespace, to `str` / `int` / `float` / `bool` constants
   (`Rule.IF`, tuple-unpacked `range(5)`, `2**i` generators) are evaluated at translation time and emitted as literals;
+  a tuple assignment whose targets are all *declared locals* (`a, b, c = (0, 0, 0)`) is a sequence of ordinary
+  assignments instead (the right-hand sides must not mention the targets);
+* a `bool` operand of `+` / `-` / `*` next to a number is the number 0 / 1 (`n += x in l`): `Bool.toNat`;
+* `with np.nditer(v, op_flags=[["readwrite"]]) as it: ... for x in it: body` is the in-place loop over the rows of
+  the local list `v`: `x[...] = e` assigns the current row, every completed iteration writes the current row back,
+  and `v` is the list of written rows after the loop.  The body must not mention `v` and must not `break`
+  (then "the rows written so far" and "`v` with the first rows replaced" cannot be told apart);
 * everything else (method calls on library objects, dictionary lookups, NumPy) must be named by an *external*
   rule of the profile: a Python expression pattern with holes `_0, _1, ...` and a Lean template.  The externals are
   the vocabulary the model is written in; their meaning is part of the trusted base and is listed in the output.
@@ -381,6 +388,12 @@ class Fn:
             return self.bind2(l, r, lambda a, b: f"(decide ({a} {sym} {b}))", "Bool")
         if isinstance(node, ast.BinOp):
             l, r = self.ce(node.left), self.ce(node.right)
+            if isinstance(node.op, (ast.Add, ast.Sub, ast.Mult)) and {l.ty, r.ty} & {"Nat", "Int", "X Rat"}:
+                # Python's bool is an int: a truth value next to a number counts 0 / 1
+                if l.ty == "Bool":
+                    l = self.bind1(l, lambda x: f"({x}).toNat", "Nat")
+                if r.ty == "Bool":
+                    r = self.bind1(r, lambda x: f"({x}).toNat", "Nat")
             if isinstance(node.op, ast.BitAnd) and l.ty == r.ty == "Nat":
                 return self.bind2(l, r, lambda a, b: f"({a} &&& {b})", "Nat")
             if isinstance(node.op, ast.BitOr) and l.ty == r.ty == "Nat":
@@ -532,6 +545,16 @@ class Fn:
             if len(s.targets) != 1:
                 raise Untranslatable("multiple assignment targets")
             t = s.targets[0]
+            if isinstance(t, ast.Tuple) and all(isinstance(e, ast.Name) and e.id in self.locals for e in t.elts):
+                # targets are mutable locals: a sequence of ordinary assignments
+                v = s.value
+                names = {e.id for e in t.elts}
+                if not isinstance(v, ast.Tuple) or len(v.elts) != len(t.elts) or len(names) != len(t.elts):
+                    raise Untranslatable(f"tuple assignment shape: {ast.unparse(s)}")
+                if any(isinstance(n, ast.Name) and n.id in names for n in ast.walk(v)):
+                    raise Untranslatable(f"tuple assignment that reads its targets: {ast.unparse(s)}")
+                seqd = [ast.Assign(targets=[e], value=x) for e, x in zip(t.elts, v.elts)]
+                return self.cs(seqd + list(rest), k, loopk, brk)
             if isinstance(t, ast.Tuple):
                 try:
                     vals = list(self.const_of(s.value))
@@ -560,6 +583,10 @@ class Fn:
                     return self.pop_stmt(val.func.value, lambda x: self._let(t.id, x), rest, k, loopk, brk)
                 e = self.ce(val)
                 return self._assign(self.rebound.get(t.id, t.id), e, rest, k, loopk, brk)
+            if (isinstance(t, ast.Subscript) and isinstance(t.slice, ast.Constant) and t.slice.value is Ellipsis
+                    and isinstance(t.value, ast.Name) and t.value.id in getattr(self, "row_vars", ())):
+                # `x[...] = e` inside an in-place loop: the current row
+                return self._assign(t.value.id, self.ce(s.value), rest, k, loopk, brk)
             if isinstance(t, ast.Attribute):
                 fld = ast.unparse(t).replace(".", "_")
                 if fld in self.locals:
@@ -639,6 +666,18 @@ class Fn:
                 # an effectful external: template is a state transformer  S -> M S
                 return seq(lambda kn: f"{ext.m()} >>= fun σ => {kn} σ") if not ext.pure else f"let σ := {ext.term}\n{after()}"
             raise Untranslatable(f"call statement {ast.unparse(call)[:60]}")
+        if isinstance(s, ast.With):
+            pat = ast.parse("np.nditer(_0, op_flags=[['readwrite']])", mode="eval").body
+            binds = {}
+            if (len(s.items) != 1 or not isinstance(s.items[0].optional_vars, ast.Name)
+                    or not match_pattern(pat, s.items[0].context_expr, binds) or not isinstance(binds[0], ast.Name)
+                    or not self.locals.get(binds[0].id, "").startswith("List ")):
+                raise Untranslatable(f"with statement: {ast.unparse(s.items[0])[:60]}")
+            it, arr = s.items[0].optional_vars.id, binds[0].id
+            if not hasattr(self, "inplace"):
+                self.inplace, self.row_vars = {}, set()
+            self.inplace[it] = arr
+            return self.cs(list(s.body) + list(rest), k, loopk, brk)
         if isinstance(s, ast.Try):
             if s.orelse or s.finalbody or len(s.handlers) != 1 or len(s.body) != 1:
                 raise Untranslatable("try statement shape")
@@ -667,7 +706,19 @@ class Fn:
                 for n in ast.walk(s):
                     if isinstance(n, ast.Name) and n.id in ren and n is not s.iter:
                         n.id = ren[n.id]
-            it = self.iterator(s.iter)
+            arr = getattr(self, "inplace", {}).get(s.iter.id) if isinstance(s.iter, ast.Name) else None
+            if arr is not None:
+                # in-place loop over the rows of `arr` (see the module docstring)
+                if not isinstance(s.target, ast.Name):
+                    raise Untranslatable("in-place loop target")
+                for n in s.body:
+                    for m in ast.walk(n):
+                        if isinstance(m, ast.Break) or (isinstance(m, ast.Name) and m.id in (arr, s.iter.id)):
+                            raise Untranslatable(f"in-place loop over '{arr}' mentions it or breaks")
+                self.row_vars.add(s.target.id)
+                it = E(f"σ.{arr}", self.locals[arr])
+            else:
+                it = self.iterator(s.iter)
             if not it.ty.startswith("List "):
                 raise Untranslatable(f"iteration over {it.ty}")
             ety = elem_type(it.ty)
@@ -686,9 +737,13 @@ class Fn:
                 raise Untranslatable("loop target")
             tnames = [s.target.id] if isinstance(s.target, ast.Name) else [e.id for e in s.target.elts]
             wb = next((self.p.get("loop_writeback", {}).get(nm) for nm in tnames if nm in self.p.get("loop_writeback", {})), None)
+            if arr is not None:
+                wb = f"{{ σ with {arr} := σ.{arr} ++ [σ.{s.target.id}] }}"
             kloop = f"{ln} rest" if wb is None else f"(fun σ => {ln} rest {wb})"
             body = self.cs(s.body, kloop, kloop, "Except.ok")
             self.aux.append(f"def {ln} : List {paren(ety)} → {self.name}.S → Py.M {self.name}.S\n  | [], σ => .ok σ\n  | x :: rest, σ =>\n{ind(tgt_assign, 4)}\n{ind(body, 4)}")
+            if arr is not None:
+                return f"{ln} σ.{arr} {{ σ with {arr} := [] }} >>= fun σ =>\n{after()}"
             if it.pure:
                 return f"{ln} {paren(it.term)} σ >>= fun σ =>\n{after()}"
             return f"{it.term} >>= fun l => {ln} l σ >>= fun σ =>\n{after()}"
@@ -771,6 +826,7 @@ class Fn:
         pnames = " ".join(n for n, _ in self.params)
         out = [f"/-! ## `{self.p['source']}`  ({self.p.get('where', '')}) -/", ""]
         out.append(f"structure {self.name}.S where\n{fields}\n")
+        # named: the automatic name `instInhabitedS` would clash between generated files imported together
         out.append(f"instance {self.name}.instInhabitedS : Inhabited {self.name}.S := ⟨{{}}⟩\n")
         # auxiliary loops take the parameters too
         for a in self.aux:
